@@ -17,7 +17,8 @@ RULE = ("/proc/net/dev files printed by the kernel printer of coq/C09/Spec.v fro
         "entries; counters from {0,1,small,2^31,2^32,2^63,2^64-1,>2^64}; a 'distinct column' class gives every column its own "
         "value so any swap shows; the /sys/block fallback (no /proc/diskstats) over a fake sysfs tree; a malformed stream "
         "(dropped/added/non-numeric fields, blank lines, missing colon, short headers) compared with the model's error class; "
-        "disk_usage over statvfs tuples (block sizes 1..2^20, boundary and random block counts, empty file systems). "
+        "disk_usage over statvfs tuples with f_bsize and f_frsize independent (f_bsize equal to, larger than, smaller than f_frsize, "
+        "huge, 0; fragment sizes 1..2^20, boundary and random block counts, empty file systems). "
         "Both calls are made with nowrap=False and with nowrap=True on a cleared cache. A case is non-trivial when at "
         "least one interface/device/non-zero block count is present; distinct = distinct canonical case hash.")
 TRUSTED = ["correspondence harness props/C09.py + pv/ (fake /proc/net/dev, /proc/diskstats, /sys/block via pv.shim, os.statvfs patch)",
@@ -307,9 +308,22 @@ def gen_cases(rng, tier):
             blocks = rng.choice([rng.randint(1, 10 ** 4), rng.randint(1, 2 ** 40), U64])
             bfree = rng.randint(0, blocks)
             bavail = rng.randint(0, bfree) if rng.random() < 0.9 else bfree
-        add({"kind": "usage", "cls": "usage" if blocks else "trivial", "frsize": fr, "blocks": blocks, "bfree": bfree, "bavail": bavail})
+        # f_bsize is an independent field: equal / larger / smaller / huge / 0
+        rel = rng.choice(["eq", "gt", "gt", "lt", "lt", "huge", "zero"])
+        bs = {"eq": fr, "gt": fr * rng.choice([2, 16, 256, 1024]), "lt": max(1, fr // rng.choice([2, 8, 512])) if fr > 1 else 0,
+              "huge": rng.choice([2 ** 31, 2 ** 40, U64]), "zero": 0}[rel]
+        if bs == fr:
+            rel = "eq"
+        add({"kind": "usage", "cls": ("usage-bsize-" + rel) if blocks else "trivial", "bsize": bs, "frsize": fr, "blocks": blocks,
+             "bfree": bfree, "bavail": bavail})
+    # every relation between f_bsize and f_frsize on one fixed file system (deterministic, all tiers)
+    for bs, fr in ((4096, 4096), (1048576, 4096), (512, 4096), (1, 4096), (0, 4096), (U64, 4096), (4096, 1), (4096, 1048576),
+                   (1, 2 ** 40), (2 ** 40, 1), (65536, 512), (1024, 65536)):
+        rel = "eq" if bs == fr else "zero" if bs == 0 else "gt" if bs > fr else "lt"
+        add({"kind": "usage", "cls": "usage-bsize-" + rel, "bsize": bs, "frsize": fr, "blocks": 1000, "bfree": 200, "bavail": 100})
     for blocks, bfree, bavail in ((1000, 995, 0), (2000, 1999, 0), (8, 7, 0), (40, 39, 0), (1000, 0, 0), (3, 2, 1), (3, 1, 1), (7, 3, 2)):
-        add({"kind": "usage", "cls": "usage-tie", "frsize": 4096, "blocks": blocks, "bfree": bfree, "bavail": bavail})
+        add({"kind": "usage", "cls": "usage-tie", "bsize": rng.choice([4096, 1048576, 512]), "frsize": 4096, "blocks": blocks,
+             "bfree": bfree, "bavail": bavail})
     return cases
 
 
@@ -354,7 +368,8 @@ def coq_term(case):
     if k == "nosource":
         return "run_nosource"
     if k == "usage":
-        return "run_usage %d %d %d %d" % (case["frsize"], case["blocks"], case["bfree"], case["bavail"])
+        return "run_usage %d %d %d %d %d" % (case.get("bsize", case["frsize"]), case["frsize"], case["blocks"], case["bfree"],
+                                               case["bavail"])
     raise ValueError(k)
 
 
@@ -506,7 +521,7 @@ def impl_run(case, coq, env):
     if k == "usage":
         import types
         st = types.SimpleNamespace(f_frsize=case["frsize"], f_blocks=case["blocks"], f_bfree=case["bfree"], f_bavail=case["bavail"],
-                                   f_bsize=case["frsize"], f_files=0, f_ffree=0, f_favail=0, f_flag=0, f_namemax=255)
+                                   f_bsize=case.get("bsize", case["frsize"]), f_files=0, f_ffree=0, f_favail=0, f_flag=0, f_namemax=255)
         real = os.statvfs
         os.statvfs = lambda path: st
         try:
@@ -567,7 +582,8 @@ MANIFEST = {
             "devices that have a /sys/block entry (partitions left out), None when there is none; the 15-field (Linux 2.4) layout is read one "
             "column off (refuted theorem with the kernel documentation's example line; known finding) and the model's shifted reading is "
             "characterised exactly; the /sys/block fallback; disk_usage equals total/used/free/percent of the property for every statvfs "
-            "tuple and stays within 0..100 for kernel-shaped tuples. The model is tied to the real psutil on every run by executing both on "
+            "tuple with f_frsize as the unit and f_bsize (an independent field) never entering the result, "
+            "and stays within 0..100 for kernel-shaped tuples. The model is tied to the real psutil on every run by executing both on "
             "kernel-printed and malformed files over a fake /proc and /sys and comparing named-tuple field names, order and values.",
     "note": "Trusted: Coq kernel + vm_compute; model coq/C09/Model.v (tied by the correspondence run only); kernel formats in coq/C09/Spec.v; "
             "harness (fake /proc, pv.shim /sys redirection, os.statvfs patch); CPython builtins; text-mode decoding outside printable ASCII "
